@@ -44,6 +44,11 @@ PROPS = {
              "through the public API on valid data frames, both directions, both versions; per frame 1 untampered run + single-bit corruptions at random positions and single-parameter mismatches "
              "(FNwkSIntKey, SNwkSIntKey, FCnt upper 16 bits, ConfFCnt, txDR, txCh, version)",
              trusted=["crypto/aes as C02", "the 32-bit FCnt reconstruction (upper 16 bits) is supplied by the caller, as in a real network server"]),
+    "C11": P("quick: every NetID type x {ID all-zero, all-one, one-hot, random} x boundary and random DevAddrs; thorough: ALL 2^24 NetIDs x rotating boundary/random DevAddrs; "
+             "for each: assign prefix, membership of the original / the prefixed / a one-bit-flipped address, NetID type+ID, NwkID; all 256 first bytes for NetIDType; "
+             "representations of the four identifier types: text (lower/upper case, 0x), binary, Scan/Value, and malformed inputs (wrong length, odd digits, bad characters, doubled prefix, non-[]byte Scan source)",
+             trusted=["encoding/hex modelled (LW.Basic hexDecodeChars), database/sql/driver.Value carried as []byte"],
+             exhaustive_parts=["thorough tier: all 2^24 NetIDs", "all 256 leading DevAddr bytes"]),
     "C08": P("byte strings of every length 0..256 for each of the 8 MTypes (uniform), uniform strings at the lengths the decoders single out, structure-aware mutations (bit flip, truncate, extend, splice, overwrite, delete) of valid frames of all kinds, "
              "and the full FOptsLen x FPort x payload-length grid; each accepted string is re-encoded by the implementation; non-trivial = accepted",
              exhaustive_parts=["all lengths 0..256 x 8 MTypes (one uniform sample each)", "FOptsLen 0..15 x {no port, port 0, port 1, port 255} x payload 0..2 x 4 data MTypes"]),
@@ -76,6 +81,12 @@ MANIFEST_TEXT = {
              "the spec verdict checks (a) untampered valid frames are accepted with exactly the original commands/payload and (b) a tampered frame is accepted iff the specification MIC over the received bytes under the receiver's parameters matches.",
         note="Trusted: as C01-C03 and C07. The end-to-end composition theorem (C05_exchange) is stated via its component theorems; the composed statement itself is not yet a single Lean theorem - see level text.",
         technique="Lean 4 proofs of the components + executable composition compared with the Go pipeline + spec-MIC oracle"),
+    "C11": dict(
+        text="Lean theorems over ALL 2^24 NetIDs x 2^32 DevAddrs: C11_setPrefix (each of the 32 result bits is the one the addressing rules prescribe: prefix 1^t 0, low w_t bits of the ID field, NwkAddr untouched), "
+             "C11_isNetID_iff, C11_prefixed_is_member, C11_netIDType, C11_netIDID; and for every identifier value: C11_text / _text_0x / _binary / _scan round trips, C11_binary_reversed, wrong lengths rejected. "
+             "Go results are also compared with an arithmetic form of the addressing rules.",
+        note="Trusted: Lean kernel; the rule tables in LW/Spec/Addr.lean; hex codec model. The bit-level and arithmetic spec forms are both hand-written (their equivalence is exercised at run time, not proved).",
+        technique="Lean 4 proof (bit-level characterisation via getLsbD extensionality, no bv_decide) + differential correspondence"),
     "C08": dict(
         text="Lean theorems C08_canonical (for ALL byte strings of all lengths: accepted with RFU bits zero => re-encodes to exactly the input) and C08_stable. Tied to the Go decoder/encoder by decode+re-encode runs on uniform and mutated inputs.",
         note="Trusted: Lean kernel; the model of the frame codec. One genuine defect found and repaired (FOpts + FPort 0 + empty FRMPayload accepted but not encodable).",
